@@ -196,7 +196,7 @@ Definition pos_of (l : list vec) (v : nat) : vec := nth v l (0%Z, 0%Z, 0%Z).
 Definition check_case (k : case) : bool :=
   let cells := k_cells k in
   let faces := complete_faces (k_faces0 k) cells in
-  let edges := complete_edges (k_edges0 k) faces in
+  let edges := complete_edges (norm_edges (k_nv k) (k_edges0 k)) faces in
   lleqb (k_faces k) faces && lleqb (k_edges k) edges &&
   (let T := build cells faces edges in
    let raises := k_sorted k && edge_sort_raises cells faces edges T in
